@@ -19,6 +19,13 @@ pub fn cases(ctx: &Ctx) -> Vec<WCase> {
             let mut sp = SpecCfg::new(0);
             sp.catchup = rr.pick(&[1usize, 2, 5]);
             s.specs.push(sp);
+            // half of the spectated ones: straggling copies of host->spectator packets sent before the drop arrive after it
+            if rr.chance(0.5) {
+                let k = s.kill.clone().unwrap();
+                let mut l = s.link.clone();
+                l.stragglers.push(Straggler { from_ms: k.at_ms.saturating_sub(rr.range(50, 400)), to_ms: k.at_ms + s.timeout_ms, every: rr.range(1, 3), delay_ms: s.timeout_ms + rr.range(20, 400) });
+                s.link_overrides.push((peer_addr(0), spec_addr(0), l));
+            }
         }
         s.settle_ms = 1500;
         out.push(wcase(format!("kill-{i}"), s));
